@@ -272,7 +272,7 @@ class Body:
         return l not in self.var_names and l > self.arg_count
 
     # ---- expression reconstruction -------------------------------------
-    def expr_of_operand(self, op, depth=12, at=None):
+    def expr_of_operand(self, op, depth=30, at=None):
         k = op["k"]
         if k == "const":
             return Const(op["c"])
@@ -280,7 +280,7 @@ class Body:
             return self.expr_of_place(op["place"], depth, at)
         return Unknown(op.get("dbg", "?"))
 
-    def expr_of_place(self, pl, depth=12, at=None):
+    def expr_of_place(self, pl, depth=30, at=None):
         base = self.expr_of_local(pl["l"], depth, at)
         e = base
         for pr in pl["p"]:
@@ -305,7 +305,7 @@ class Body:
                 e = Unknown(kk)
         return e
 
-    def expr_of_local(self, l, depth=12, at=None):
+    def expr_of_local(self, l, depth=30, at=None):
         """Reconstruct the value of a local as an expression tree. Temps with exactly one
         definition are expanded; user variables, arguments and multiply-defined locals are
         leaves (Var)."""
@@ -327,11 +327,11 @@ class Body:
             e = Named(name, l, e, self.locals[l]["ty"])
         return e
 
-    def expr_of_call(self, t, depth=12):
+    def expr_of_call(self, t, depth=30):
         args = [self.expr_of_operand(a, depth) for a in t["args"]]
         return Call(t, args)
 
-    def expr_of_rvalue(self, rv, depth=12):
+    def expr_of_rvalue(self, rv, depth=30):
         k = rv["k"]
         if k == "use":
             return self.expr_of_operand(rv["op"], depth)
